@@ -43,7 +43,7 @@ def generate(ctx):
         for files, how in variants:
             c2 = dict(case, files=files)
             salv = rng.choice([0, 0, 1]) if case["kind"] == "cab" else 0
-            params = [("SALVAGE", salv), ("DECOMPBUF", rng.choice([4, 64, 4096]))] if case["kind"] == "cab" else []
+            params = [("SALVAGE", salv), ("DECOMPBUF", rng.choice([4, 7, 64, 4096]))] if case["kind"] == "cab" else []
             lines = S.file_lines(c2) + S.generic_ops(c2, params)
             meta = dict(family=case["kind"] + "." + ("valid" if how == "valid" else "malformed"), how=how, salvage=salv, kind=case["kind"])
             if case["kind"] == "oab":
